@@ -8,3 +8,4 @@ import Rpki.Props.C10
 #print axioms Rpki.Props.C10.single_fault_rejects
 #print axioms Rpki.Props.C10.created_validates_iff
 #print axioms Rpki.Props.C10.accepted_message_octets
+#print axioms Rpki.Props.C10.accepted_message_octets_either_mode
